@@ -54,9 +54,9 @@ PLAN = {
         'bounded': ['history_independence'], 'static': ['no_shared_state'],
         'level': 'proof',
         'units': ['phon', 'pmeth'],
-        'technique': 'Verus: memo-transparency invariant ph_cache_ok + functional postcondition list == ph_list(text, config, data, memo)',
-        'claim': 'Proof that every memo entry is the direct-candidate list of its key (a pure function of the key, the data and the user list), that the memo only grows by the word part of the current text, is never modified otherwise and is cleared when the user list is reloaded, and that the returned list is a spec function ph_list of (text, configuration, data, memo).',
-        'note': COMMON_TRUST + 'The corollary "same list for every history" additionally needs the prefixes-memoised invariant (not yet proved: stated in DESIGN); include_from_dictionary, split are T2; sort assumed to be a function of ranks; "other contexts in the same process" rests on safe Rust aliasing + a scan for statics.',
+        'technique': 'Verus: memo invariants (transparent, keys split-stable, prefixes memoised) + spec-level lemma list == ph_list_text(text, ...) independent of the memo',
+        'claim': 'Proof of history independence for the candidate texts and their order: (1) every memo entry is the direct-candidate list of its key, every key is a split-stable word part, the memo only grows by the word part of the current text and is cleared when the user list is reloaded; (2) PhoneticMethod keeps the invariant that the word part of every non-empty prefix of the composition is memoised (preserved by key, backspace; trivially true when idle); (3) spec-level lemma: under (1)+(2) a split point of the word is memoised iff its base is itself a split-stable word part -- a property of the text -- hence list == ph_list_text(text, config, data, user list), a function that does not mention the memo; get_suggestion and backspace_event are proved to return exactly that list.',
+        'note': COMMON_TRUST + 'The preselected index is proved in range only (its functional form is C09 look-up side, bounded check learn_recall); include_from_dictionary, split, search_corrected are T2 (assumed contracts); sort assumed to be a function of the ranked values; "other contexts in the same process" rests on safe Rust aliasing + the scan for process-wide state.',
     },
     'C06': {
         'bounded': ['fixed_rules', 'fixed_api'], 'static': ['context_glue'],
@@ -119,8 +119,8 @@ PLAN = {
         'level': 'proof',
         'units': ['fixed_reph', 'fixed_pkv_off', 'fixed_pkv_common'],
         'technique': 'Verus loop invariant tying the real right-to-left scan to a recursive scan spec; conservation postcondition; dispatch clauses',
-        'claim': 'Proof that insert_old_style_reph turns p into p with reph inserted at exactly one position (nothing else changed, never panics, also for empty p), that the position is the one computed by the scan specification, and that the reph key reaches it exactly when the option is on (plain append otherwise).',
-        'note': COMMON_TRUST + 'internal_backspace_step (closure fold) is T2 with a bounded conformance check; the lemma scan position == statement position for well-formed text is checked by the bounded reph check (<= 5 code points, 10-symbol class alphabet) until the spec-level induction is added.',
+        'claim': 'Proof that insert_old_style_reph turns p into p with reph inserted at exactly one position (nothing else changed, never panics, also for empty p); that the real right-to-left loop computes the scan specification; spec-level induction (lemma_reph_placement) that for every text in which each hasanta follows a consonant the scan position equals the position the statement prescribes (before the final conjunct C(HC)* when the text ends in conjunct [vowel] [chandrabindu], else the end); and that the reph key reaches this function exactly when the option is on (plain append otherwise).',
+        'note': COMMON_TRUST + 'internal_backspace_step (closure fold) is T2 with a bounded conformance check; well-formedness used by the placement clause: every hasanta follows a consonant; joiners are not part of a conjunct (literal reading of the statement).',
     },
     'C14': {
         'bounded': ['fixed_rules'],
